@@ -293,8 +293,8 @@ def _run(D):
     kind = D.pick('cfg', 'algo', ('nsga2', 'epsmoea', 'omopso', 'smpso', 'psoga'))
     workers = 1 + D.weighted('cfg', 'rworkers', (2, 1, 1))
     fail = ('light', 'heavy')[D.weighted('cfg', 'failrate', (3, 1))]
-    N = 2 + D.dec('cfg', 'N', 7)
-    G = 1 + D.dec('cfg', 'G', 4)
+    N = 2 + D.size('cfg', 'N', 7)
+    G = 1 + D.size('cfg', 'G', 4)
     w = W.World(D, sim, fail=fail, name='c06')
     if fail == 'heavy':
         w.fail_p = 0.45
